@@ -251,6 +251,9 @@ def check_case(ctx, case, req, resp, stats, replay_base):
         problems.append("experiment failed: code %s %s" % (resp.get("code"), resp.get("err") or resp.get("panic")))
         return None, problems
     events, tap, topic = resp["events"], resp["tap"], resp["topic"]
+    if resp.get("sibling_got"):
+        problems.append("a sibling subscription made from the same provider on ANOTHER topic received %d message(s) "
+                        "published on topic %s" % (resp["sibling_got"], topic))
     by_step = {it["step"]: it for it in case["items"]}
     by_cid = {it["cid"]: it for it in case["items"]}
     # publish events in order; global publish index = position among them
